@@ -341,13 +341,8 @@ def judge(vendor, rbk, top, rules, old, new, tier, report, stats=None):
     # also builds a patch on the way; what it prints must still be the diff)
     try:
         from annet import api
-        from annet import rulebook as rulebook_mod
-        saved = rulebook_mod.get_rulebook
-        rulebook_mod.get_rulebook = lambda _hw: rbk
-        try:
+        with env.rulebook_override(lambda _hw, _real: rbk):
             _rb, _d, fpre, _pt = api._read_old_new_diff_patch(env.to_odict(old), env.to_odict(new), env.hw(vendor), False)
-        finally:
-            rulebook_mod.get_rulebook = saved
         lines = list(gen_pre_as_diff(fpre, False, "  ", True))
         got = read_pre_diff(lines, "  ")
         if multiset(got) != multiset(want):
